@@ -1,4 +1,4 @@
-CONSTANTS Types = {"tx", "full", "filtered", "metadata", "rollupdata"}  MaxDepth = 3  MaxIdx = 4
+CONSTANTS Types = {"tx", "full", "filtered", "filtered_empty", "metadata", "rollupdata"}  MaxDepth = 3  MaxIdx = 4
 INIT Init
 NEXT Next
 INVARIANTS NoThirdWayOut AcceptedIsConsistent Export
